@@ -680,3 +680,117 @@ func runInterval(s ivScenario) vrun.Result {
 	r.Stat("points_timed", int64(len(sentAt)))
 	return r
 }
+
+// TestC20StoreFault: the sent storage fails on some chunks (a persistent storage can). One writer goroutine, a State()
+// snapshot after every operation: a snapshot never invents or double-counts data, whatever the storage does.
+func TestC20StoreFault(t *testing.T) {
+	e := vrun.LoadEnv()
+	meta := vrun.Meta{Property: "C20", Workload: "TestC20StoreFault", Total: e.Pick(100, 8000),
+		Rule:        "one goroutine, policy none / size (threshold 1, 64, 1000) / immediate, 10-60 operations (Write of 0-4 points, Flush), the sent storage's Store fails for a drawn subset of sequence numbers; State() is read after every operation. Oracle: points reported sent + points reported buffered never exceed the points of the writes that returned nil, equal them after a Flush that returned nil, and the buffer is empty then. non-trivial = at least one Store failed and at least one later Flush returned nil; distinct = scenario tuple",
+		Assumptions: []string{"what happens to the points of a chunk whose Store failed (they are dropped and the flush reports the error) is not judged here: the statement is about the state snapshot"}}
+	vrun.Loop(t, meta, 0, func(c *vrun.Case) vrun.Result {
+		var res vrun.Result
+		ok, dump := vrun.Watchdog(120*time.Second, func() { res = runStoreFault(c) })
+		if !ok {
+			res = vrun.WatchdogVerdict("the case never finished")
+			if res.Verdict == vrun.Inconclusive {
+				res.Witness = map[string]any{"dump_head": dump[:min(len(dump), 4000)]}
+			}
+		}
+		return res
+	})
+}
+
+func runStoreFault(c *vrun.Case) vrun.Result {
+	r := c.Rng
+	policy := []string{"none", "size", "immediate"}[r.Intn(3)]
+	threshold := []uint32{1, 64, 1000}[r.Intn(3)]
+	nops := 10 + r.Intn(51)
+	failEvery := 2 + r.Intn(4)
+	failOff := r.Intn(failEvery)
+	desc := map[string]any{"policy": policy, "threshold": threshold, "operations": nops, "store_fails_for_seq_mod": failEvery, "offset": failOff}
+	done := func(v vrun.Result) vrun.Result { v.Desc = desc; return v }
+	w := world.New()
+	defer w.Close()
+	w.Start()
+	var failed atomic.Int64
+	st := uplib.NewFailingStorage(func(seq uint32) bool {
+		if int(seq)%failEvery == failOff {
+			failed.Add(1)
+			return true
+		}
+		return false
+	})
+	conn, err := w.Connect(iscp.WithConnPingInterval(time.Hour), iscp.VerifWithSentStorage(st))
+	if err != nil {
+		return done(vrun.Inconcl("connect: " + err.Error()))
+	}
+	defer conn.Close(context.Background())
+	opts := []iscp.UpstreamOption{iscp.WithUpstreamQoS(message.QoSReliable), iscp.WithUpstreamCloseTimeout(time.Second)}
+	switch policy {
+	case "none":
+		opts = append(opts, iscp.WithUpstreamFlushPolicyNone())
+	case "size":
+		opts = append(opts, iscp.WithUpstreamFlushPolicyBufferSizeOnly(threshold))
+	case "immediate":
+		opts = append(opts, iscp.WithUpstreamFlushPolicyImmediately())
+	}
+	ctx, cancel := context.WithTimeout(context.Background(), 60*time.Second)
+	defer cancel()
+	up, err := conn.OpenUpstream(ctx, "s", opts...)
+	if err != nil {
+		return done(vrun.Inconcl("open: " + err.Error()))
+	}
+	id := &message.DataID{Name: "d", Type: "t"}
+	accepted := 0
+	nilFlushAfterFailure := 0
+	snapshots := 0
+	check := func(after string, afterNilFlush bool) *vrun.Result {
+		s := up.State()
+		buffered := 0
+		for _, g := range s.DataPointsBuffer {
+			buffered += len(g.DataPoints)
+		}
+		snapshots++
+		if int(s.TotalDataPoints)+buffered > accepted {
+			v := vrun.Violation("a State() snapshot reports more points (sent + buffered) than were accepted", "state-invents-points:store-fault",
+				map[string]any{"after": after, "total_data_points": s.TotalDataPoints, "buffered": buffered, "accepted": accepted, "stores_failed_so_far": failed.Load()})
+			return &v
+		}
+		if afterNilFlush && (buffered != 0 || int(s.TotalDataPoints) != accepted) {
+			v := vrun.Violation("after a Flush that returned nil the snapshot does not account for exactly the accepted points with an empty buffer", "state-total-after-flush:store-fault",
+				map[string]any{"after": after, "total_data_points": s.TotalDataPoints, "buffered": buffered, "accepted": accepted, "stores_failed_so_far": failed.Load()})
+			return &v
+		}
+		return nil
+	}
+	for i := 0; i < nops; i++ {
+		if r.Intn(10) < 7 {
+			n := r.Intn(5)
+			var dps []*message.DataPoint
+			for j := 0; j < n; j++ {
+				dps = append(dps, &message.DataPoint{ElapsedTime: time.Duration(i*10 + j), Payload: make([]byte, []int{0, 1, 40, 200}[r.Intn(4)])})
+			}
+			if err := up.WriteDataPoints(ctx, id, dps...); err == nil {
+				accepted += n
+			}
+			// the hand-off to the flush loop is asynchronous: give the loop a moment before looking
+			time.Sleep(200 * time.Microsecond)
+			if v := check(fmt.Sprintf("write #%d", i), false); v != nil {
+				return done(*v)
+			}
+		} else {
+			err := up.Flush(ctx)
+			if err == nil && failed.Load() > 0 {
+				nilFlushAfterFailure++
+			}
+			if v := check(fmt.Sprintf("flush #%d (err=%v)", i, err), err == nil); v != nil {
+				return done(*v)
+			}
+		}
+	}
+	res := vrun.Hold(fmt.Sprintf("%s|%d|%d|%d/%d", policy, threshold, nops, failEvery, failOff), failed.Load() > 0 && nilFlushAfterFailure > 0)
+	res.Stat("state_snapshots_checked", int64(snapshots))
+	res.Stat("stores_failed", failed.Load())
+	return done(res)
+}
